@@ -50,6 +50,16 @@ CHECKS = {
    note="AST comments are collected from the Debug rendering so that no comment field can be missed. The formatter's comment emission outside the curated placements is one listed finding.",
    technique="runtime monitor with unique-id instrumentation of the input (exactly-once / unchanged / no-absorption)",
    design_ref="DESIGN.md section 3 C16"),
+ "C17": dict(
+   text="Two monitors around cddl-derive: (1) round trip through the real proc macro: schemas generated from a model of the documented mapping subset (plus one tiny schema per entry of every field-name / rule-name / literal pool) are written into a scratch crate that invokes cddl_derive::cddl_typegen!, compiled (rustc errors are attributed to the schema whose macro call they point at), and run on model-generated instances that the library validates: deserialise, serialise, same data, validates again; failing instances are minimised against the compiled type and tagged with the constructs they exercise. (2) generation monitor: generate_all_types (codegen.rs compiled into the harness) is called repeatedly in-process and in fresh processes: byte-identical output, unique type names, unique field names per struct.",
+   note="One defect repaired by a fix: commit (fields renamed by de-duplication lost their CDDL key). Ten classes of pre-existing code-generator defects are listed as class findings (optional+nullable null dropped, PascalCase collisions merged, nullable recursion unboxed, [* (T / null)] as Vec<()>, rule-level tables not flattened, keyword / digit-first / colliding variant names, std type names shadowed).",
+   technique="runtime monitor over generated programs: compile + run the generated types on validated instances (round-trip oracle), cross-process determinism and uniqueness monitor on the generator output",
+   design_ref="DESIGN.md section 3 C17"),
+ "C19": dict(
+   text="Per feature set (quick: 32 sets incl. the full set, all 8 all-but-one sets, all 8 single-feature sets and the empty set; thorough: all 256): (a) build monitor: cargo check of the library with exactly that set; compiler errors are events keyed by code, file, named identifiers and the +/- literals of the set. (b) behaviour monitor (quick: the 8 all-but-one sets; thorough: every set that builds): a driver crate built against the set is run on a generated workload and compared record by record with the same driver built with all features: parser acceptance, Display text (exact, else classified as layout-only or token difference; commented schemas are compared with their comment-free twin when the set lacks ast-comments), Debug AST modulo span and empty comment fields, JSON / CBOR / CSV verdict classes and error counts. Items that use a control operator the set does not provide are skipped.",
+   note="One defect repaired by a fix: commit (232 of 256 feature sets did not compile). Two known findings: the no-ast-comments printer lays text out differently (layout only); without ast-span the parser drops all comments although ast-comments is on.",
+   technique="runtime differential monitor across builds: the same driver compiled per cargo feature set, run on one generated workload, outputs compared; compiler as build oracle over the feature lattice",
+   design_ref="DESIGN.md section 3 C19"),
  "C18": dict(
    text="Process-boundary monitor: the cddl binary is rebuilt from /repo's working tree and run on generated invocations (11 schema kinds incl. .feature-dependent, first-rule-generic, groups-only, not compiling; 1..7 documents over --json/--cbor/--csv/--stdin, missing paths, --features lists, --csv-header, with and without --ci); every 'Validation of <path> is successful/failed' line and the exit status are compared with the library called by the harness on the same bytes with the same features; compile-cddl exit status against cddl_from_str.",
    note="Documents are small fixed shapes (the verdict logic is C01/C02's concern); what varies is routing, feature threading, ordering, missing files, stdin sniffing. Two defects repaired by fix: commits (features dropped for --cbor files and stdin JSON; abort on schemas without a root type rule).",
